@@ -99,6 +99,9 @@ def build(cfg):
     s = pyPRISM.System(T, kT=cfg['kT'])
     s.domain = pyPRISM.Domain(length=cfg['length'], dr=cfg['dr'])
     # the order of the user's assignment statements is independent of the order of the type list
+    if cfg.get('diam_idiom') == 'sweep':
+        # a size-ratio sweep on a re-used System: every diameter first gets a common value, then its own
+        s.diameter[T] = 1.0
     for t in cfg.get('assign_order', T):
         s.density[t] = cfg['rho'][t]
         s.diameter[t] = cfg['diam'][t]
@@ -114,6 +117,20 @@ def build(cfg):
             for a, b in pairs(T):
                 if json.dumps(cfg[name]['%s-%s' % (a, b)]) != common:
                     table[a, b] = maker(cfg[name]['%s-%s' % (a, b)])
+        for a, b in pairs(T):
+            s.omega[a, b] = make_omega(cfg['omega']['%s-%s' % (a, b)], s.domain.k)
+        return s
+    if cfg.get('assign') == 'setunset':
+        # the other tutorial idiom: the pairs that differ are assigned first, table.setUnset(default) fills the rest
+        import json
+        for table, maker in ((s.potential, make_potential), (s.closure, make_closure)):
+            name = 'pot' if table is s.potential else 'clo'
+            specs = [json.dumps(cfg[name]['%s-%s' % (a, b)]) for a, b in pairs(T)]
+            common = max(sorted(set(specs)), key=specs.count)
+            for a, b in pairs(T):
+                if json.dumps(cfg[name]['%s-%s' % (a, b)]) != common:
+                    table[a, b] = maker(cfg[name]['%s-%s' % (a, b)])
+            table.setUnset(maker(json.loads(common)))
         for a, b in pairs(T):
             s.omega[a, b] = make_omega(cfg['omega']['%s-%s' % (a, b)], s.domain.k)
         return s
